@@ -1,6 +1,7 @@
 //! Small executable reference models used as oracles. Nothing in here shares
 //! code with falcon-rust.
 pub mod codec;
+pub mod fft;
 pub mod field;
 pub mod sampler;
 pub mod specverify;
